@@ -44,6 +44,17 @@ CLAIMED = {
         "self-loops are outside the statement (the property says loop-free).",
         "Lean 4 theorems (certificate layer + Mathlib graph theory) + program-equality correspondence",
         "DESIGN.md §5 C09"),
+    "C05": (
+        "Kernel-checked theorems for ALL multigraphs, k>=1, well-typed integer label expressions with values in 0..k-1, roots lists "
+        "(None holes) and both allow_empty_group settings: C05_aux_exact (rank/is_root/spanning_forest program of the model of "
+        "_division_connected is satisfiable for a labeling iff every label class induces a connected subgraph, every label is used "
+        "unless empty groups are allowed, and listed roots carry their position's label), C05_prim_exact (native route: indicator "
+        "arrays + graph-active-vertices-connected + counts), C05_total. Tie: program equality with the real function on random "
+        "graphs/grids/argument forms (IntArray1D, plain lists, (y,x) roots); failing-input search over all labelings of small graphs.",
+        "Trusted: Lean kernel + standard axioms; Mathlib Preconnected; `eval`, `evalAVC`; hand-written generator model tied by program "
+        "equality; n=0 raises ValueError on the auxiliary route (vacuous there).",
+        "Lean 4 theorems (certificate layer + Mathlib graph theory) + program-equality correspondence",
+        "DESIGN.md §5 C05"),
 }
 
 NOT_YET = "machinery for this property is still under construction in this round (model/theorems not yet committed)"
